@@ -210,6 +210,70 @@ class BlockGen:
         return " ".join(out)
 
 
+# ---- systematic neighbourhood of the rewrite rules: every template instantiated with every operator of its
+# family and with small constants, so that a rule that fires on the wrong operator, operand position or
+# constant is exercised (not only the instances the rules are meant for)
+FAM = {
+    "cmp": ["GT", "LT", "SGT", "SLT", "EQ"],
+    "bw": ["AND", "OR", "XOR"],
+    "sh": ["SHL", "SHR", "SAR"],
+    "ar": ["ADD", "SUB", "MUL", "DIV", "SDIV", "MOD", "SMOD", "EXP", "SIGNEXTEND", "BYTE"],
+    "un": ["ISZERO", "NOT"],
+    "k": ["PUSH1 0x0", "PUSH1 0x1", "PUSH1 0x2", "PUSH32 0x" + "f" * 64],
+    "env": ["ADDRESS", "CALLER", "ORIGIN", "COINBASE", "CALLVALUE", "SELFBALANCE"],
+}
+TEMPLATES = [
+    "{k} {x} {cmp} {un}", "{x} {k} {cmp} {un}", "{x} {y} {cmp} {un} {un}", "{x} {un} {un} {un}",
+    "{x} {un} {k} {cmp}", "{k} {x} {un} {cmp}", "{x} {y} {bw} {x} {bw2}", "{y} {x} {y} {bw} {bw2}",
+    "{x} {y} {bw} {un}", "{x} {y} {ar} {un}", "{x} {un} {x} {bw}", "{x} {x} {un} {bw}",
+    "PUSH20 0xffffffffffffffffffffffffffffffffffffffff {env} {bw}", "{env} PUSH20 0xffffffffffffffffffffffffffffffffffffffff {bw}",
+    "PUSH19 0xffffffffffffffffffffffffffffffffffffff {env} AND",
+    "{k} {x} {sh} {y} {ar}", "{y} {k} {x} {sh} {ar}", "{x} {y} {sh} {x} {z} {sh2} {bw}", "{y} {x} {sh} {z} {x} {sh2} {bw}",
+    "{env} BALANCE", "{env} EXTCODESIZE", "{x} {k} {ar}", "{k} {x} {ar}", "{x} {x} {ar}", "{x} {x} {cmp}", "{x} {x} {bw}",
+    "{k} {x} {sh}", "{x} {k} {sh}", "{x} {x} {sh}", "{x} {k} {bw}", "{x} {k} {cmp}", "{k} {x} {cmp}",
+]
+
+
+def rule_corpus():
+    """deterministic list of blocks: all instantiations of TEMPLATES (operators and constants), with stack variables"""
+    import itertools
+    out = []
+    for t in TEMPLATES:
+        slots = []
+        for w in t.split(" "):
+            if w.startswith("{") and w[1:-1].rstrip("2") in FAM:
+                slots.append(w)
+        keys = list(dict.fromkeys(slots))
+        choices = [FAM[k[1:-1].rstrip("2")] for k in keys]
+        for combo in itertools.product(*choices):
+            m = dict(zip(keys, combo))
+            depth = 0
+            toks = []
+            for w in t.split(" "):
+                if w in m:
+                    toks.append(m[w])
+                elif w in ("{x}", "{y}", "{z}"):
+                    toks.append("DUP%d" % ({"{x}": 1, "{y}": 2, "{z}": 3}[w] + depth))
+                else:
+                    toks.append(w)
+                # track how many words the prefix has pushed on top of the three variables
+                last = toks[-1].split(" ")[0]
+                if last.startswith("DUP") or last.startswith("PUSH") or last in FAM["env"]:
+                    depth += 1
+                elif last in FAM["un"] or last in ("BALANCE", "EXTCODESIZE"):
+                    pass
+                else:
+                    depth -= 1
+            out.append(" ".join(toks))
+    return list(dict.fromkeys(out))
+
+
+def fold_corpus(values=None):
+    """PUSH b PUSH a OP for every binary operator over a grid of constants"""
+    vals = values or [0, 1, 2, 31, 32, 255, 256, 2 ** 255 - 1, 2 ** 255, M - 1]
+    return ["%s %s %s" % (push(b), push(a), op) for op in BIN for a in vals for b in vals]
+
+
 def blocks(seed, n, profiles=("mixed", "mixed", "mem", "arith", "stack"), **kw):
     rng = random.Random(seed)
     res = []
